@@ -673,9 +673,11 @@ class InterpProxy(object):
             return getattr(real_interp, kind)(x, y)
         if len(x) < 2:
             getattr(real_interp, kind)(np.arange(len(x), dtype=float), np.zeros(len(x)))
-        _used('pchip / PchipInterpolator (uninterpreted interpolant: congruence + interpolation at knots + no-overshoot bounds)')
         xs, ys = list(np.asarray(x, dtype=object)), list(np.asarray(y, dtype=object))
         xc = _const_list(xs)
+        if xc is not None and core.ctx().options.get('pchip') != 'uf':
+            return _exact_pchip(xc, ys)
+        _used('pchip / PchipInterpolator (uninterpreted interpolant: congruence + interpolation at knots + no-overshoot bounds)')
 
         def ev(t):
             tt = np.asarray(t, dtype=object)
@@ -730,6 +732,73 @@ class InterpProxy(object):
                 out.flat[i] = ys[k] + slope * (lift(tv) - xs[k])
             return out.view(SymArray)
         return ev
+
+
+def _sgn(v):
+    """sign of a lifted value by forking: -1, 0, 1"""
+    if bool(v > 0):
+        return 1
+    if bool(v < 0):
+        return -1
+    return 0
+
+
+def _exact_pchip(xc, ys):
+    """scipy's PchipInterpolator for concrete strictly increasing knots and symbolic values, written out exactly:
+    Fritsch-Butland derivatives (weighted harmonic mean, zero at local extrema, three-point end formula) and cubic
+    Hermite evaluation.  Sign tests fork; validated against scipy on every concolic replay."""
+    _used('pchip / PchipInterpolator (exact Fritsch-Butland derivatives + cubic Hermite, sign tests by forking)')
+    n = len(xc)
+    for a, b in zip(xc[:-1], xc[1:]):
+        if not a < b:
+            raise ValueError("`x` must be strictly increasing sequence.")
+    ys = [lift(v) for v in ys]
+    h = [xc[k + 1] - xc[k] for k in range(n - 1)]
+    m = [(ys[k + 1] - ys[k]) / h[k] for k in range(n - 1)]
+    d = [None] * n
+    if n == 2:
+        d = [m[0], m[0]]
+    else:
+        sg = [_sgn(v) for v in m]
+
+        def edge(h0, h1, m0, m1, s0, s1):
+            dd = (m0 * (2 * h0 + h1) - m1 * h0) / (h0 + h1)
+            sd = _sgn(dd)
+            if sd != s0:
+                return SymReal(c=Fraction(0))
+            if s0 != s1 and bool(abs(dd) > abs(m0) * 3):
+                return m0 * 3
+            return dd
+        for k in range(1, n - 1):
+            if sg[k - 1] != sg[k] or sg[k] == 0 or sg[k - 1] == 0:
+                d[k] = SymReal(c=Fraction(0))
+            else:
+                w1 = 2 * h[k] + h[k - 1]
+                w2 = h[k] + 2 * h[k - 1]
+                d[k] = (m[k - 1] * m[k] * (w1 + w2)) / (m[k] * w1 + m[k - 1] * w2)
+        d[0] = edge(h[0], h[1], m[0], m[1], sg[0], sg[1])
+        d[n - 1] = edge(h[-1], h[-2], m[-1], m[-2], sg[-1], sg[-2])
+
+    def ev(t):
+        tc = _const_list(t)
+        if tc is None:
+            raise PathAbort("exact pchip: symbolic abscissa", kind='engine-gap')
+        out = np.empty((len(tc),), dtype=object)
+        for i, tv in enumerate(tc):
+            k = 0
+            if tv >= xc[-1]:
+                k = n - 2
+            else:
+                while k < n - 2 and tv >= xc[k + 1]:
+                    k += 1
+            s_ = (tv - xc[k]) / h[k]
+            h00 = 2 * s_ ** 3 - 3 * s_ ** 2 + 1
+            h10 = s_ ** 3 - 2 * s_ ** 2 + s_
+            h01 = -2 * s_ ** 3 + 3 * s_ ** 2
+            h11 = s_ ** 3 - s_ ** 2
+            out[i] = ys[k] * h00 + d[k] * (h10 * h[k]) + ys[k + 1] * h01 + d[k + 1] * (h11 * h[k])
+        return out.view(SymArray)
+    return ev
 
 
 def sorted_by_fork_idx(vals):
